@@ -116,6 +116,9 @@ def gen_ti_case(rng, tier):
         ops.append({"op": "ti_downgrade", "path": path, "version": "0.0", "tag": "C16"})
         ops.append({"op": "restart", "path": path, "via": pick(rng, ["path", "handle", "loads"]), "offset": rng.randint(0, 300)})
         return {"machine": "M-TI", "cfg": {"simset": "insertion"}, "ops": ops}
+    if rng.random() < 0.25:
+        # an absolute KEY planted in the stored file, read by a fresh object and by objects that read other files before
+        ops.append({"op": "ti_abs_key_stored", "path": path, "n": rng.randint(0, 11)})
     if rng.random() < 0.6:
         modes = ["keep", "bare", "bare32", "bare40", "bare64", "bare31", "bare33", "bare48", "bare128", "bare0", "bare65"]
         ops.append({"op": "ti_bare_digests", "path": path, "plan": [pick(rng, modes) for _ in range(rng.randint(1, 5))]})
